@@ -296,8 +296,10 @@ def same_regions(g1, g2):
 
 
 # ------------------------------------------------------------------------------------------------ generated databases with structure
-def gen_db_structural(rng, idx):
-    yml, meta = c08.gen_db(rng, idx, with_pseudo=rng.random() < 0.8, n_var=rng.randint(8, 18))
+def gen_db_structural(rng, idx, shared_break=False):
+    """shared_break: the database is forced to hold two LEFT fusions with the same break point, the smaller-named one bare, the other
+    with its own function-altering variant (they share one structural configuration; only the bare one is replaced by partial alleles)"""
+    yml, meta = c08.gen_db(rng, idx, with_pseudo=(True if shared_break else rng.random() < 0.8), n_var=rng.randint(8, 18))
     name = yml["name"]
     has_pseudo = len(yml["structure"]["genes"]) > 1
     regs = list(yml["structure"]["cn_regions"]) + ["up", "down"]
@@ -397,6 +399,13 @@ def gen_db_structural(rng, idx):
             structural.append({"mutations": muts})
             if rng.random() < 0.3:
                 structural.append({"mutations": [["GENP", brk + ("-" if kind == "left" else "+")]]})    # same break again -> merged
+    if shared_break and has_pseudo and fun:
+        brk = rng.choice(list(yml["structure"]["cn_regions"]))
+        shared = [{"mutations": [["GENP", brk + "-"]]},
+                  {"mutations": [["GENP", brk + "-"]] + [ent(w) for w in rng.sample(fun, 1)]}]
+        if rng.random() < 0.5 and sil:
+            shared.append({"mutations": [["GENP", brk + "-"]] + [ent(w) for w in rng.sample(fun, min(2, len(fun)))] + [ent(rng.choice(sil))]})
+        structural = shared + structural if rng.random() < 0.5 else structural[:1] + shared + structural[1:]
     if rng.random() < 0.5:
         structural.append({"mutations": [[name, "deletion"]]})
     for _ in range(rng.choice([0, 0, 1, 2])):
@@ -658,6 +667,8 @@ def run(chk):
         gens += [(c["yml"], "corpus") for c in json.load(open(corpus))]
     for i in range(40 if q else 600):
         gens.append((gen_db_structural(chk.rng, i)[0], "generated"))
+    for i in range(4 if q else 40):       # whatever the seed: left fusions sharing one break point, the smallest-named one bare
+        gens.append((gen_db_structural(chk.rng, 1000 + i, shared_break=True)[0], "generated"))
     with tempfile.TemporaryDirectory(dir=c08._scratch()) as td:
         for i, (yml, stream) in enumerate(gens):
             genes = {}
